@@ -21,18 +21,57 @@ def inForce (cfg : Cfg) (m : Msg) : List Policy :=
 inductive Discovery | nothing | failed | usable | unusableOnly
 deriving DecidableEq
 
-def discovery (mx : MX) : Discovery :=
-  if mx.aAD = false then .nothing          -- insecure address records: no TLSA lookup
-  else if mx.tlsa = .servfail then .failed
-  else if mx.tlsa = .none then .nothing
-  else if mx.tlsaAD = false then .nothing  -- unauthenticated RRset counts as absent
-  else if mx.tlsa = .unusable then .unusableOnly
-  else .usable
+/-- What consulting one TLSA base domain gives (RFC 7672 §2.2.3): DANE does not apply from this name,
+the lookup failed, or an authenticated non-empty RRset (its kind relative to the presented certificate). -/
+inductive Governing | notApplicable | lookupFailed | rrset (t : Tlsa)
+deriving DecidableEq
 
-/-- The presented certificate is authenticated by the published records (DANE-EE: key match only;
-DANE-TA: chain to the asserted anchor and name check). -/
+/-- one candidate TLSA base domain: a lookup error is a failure; a missing or unauthenticated RRset
+counts as absent -/
+def atBase (t : Tlsa) (ad : Bool) : Governing :=
+  if t = .servfail then .lookupFailed
+  else if t = .none then .notApplicable
+  else if ad = false then .notApplicable
+  else .rrset t
+
+/-- The TLSA RRset that governs connections to the MX, RFC 7672 §2.2.2:
+* not an alias: insecure address records ⇒ no TLSA lookup; else the MX name is the base domain;
+* alias whose whole expansion and address RRset are secure ("secure CNAME"): the expanded name is the
+  preferred base domain, and only when no secure TLSA records are found there the initial name is tried —
+  a lookup error at either name consulted is a failure;
+* alias with a secure CNAME RRset but an insecure continuation ("insecure CNAME"): the initial name only;
+* insecure CNAME RRset at the MX name: DANE does not apply.
+When the address answer is not authenticated the security status of the CNAME RRset itself has to be
+looked up; if that lookup fails the discovery has failed. -/
+def governing (mx : MX) : Governing :=
+  match mx.cname with
+  | .none => if mx.aAD = false then .notApplicable else atBase mx.tlsa mx.tlsaAD
+  | .secure =>
+    if mx.aAD = true then
+      (match atBase mx.tlsa (canonTlsaAD mx) with
+       | .notApplicable => atBase mx.tlsaI mx.tlsaIAD
+       | g => g)
+    else if mx.cnameErr = true then .lookupFailed
+    else atBase mx.tlsaI mx.tlsaIAD
+  | .insecure => if mx.cnameErr = true then .lookupFailed else .notApplicable
+
+def discovery (mx : MX) : Discovery :=
+  match governing mx with
+  | .notApplicable => .nothing
+  | .lookupFailed => .failed
+  | .rrset t => if t = .unusable then .unusableOnly else .usable
+
+/-- A record set of kind `t` authenticates the presented certificate (DANE-EE: key match only; DANE-TA:
+chain to the asserted anchor and name check). -/
+def kindMatches (t : Tlsa) (cert : Cert) : Bool :=
+  t == .eeMatch || (t == .taMatch && cert != .wrongName)
+
+/-- The presented certificate is authenticated by the governing records (the ones at the canonical
+name when those govern). -/
 def daneMatches (mx : MX) : Bool :=
-  mx.tlsa == .eeMatch || (mx.tlsa == .taMatch && mx.cert != .wrongName)
+  match governing mx with
+  | .rrset t => kindMatches t mx.cert
+  | _ => false
 
 /-- TLS is on and the certificate is valid for the MX under the trusted roots. -/
 def pkixOf (mx : MX) (s : TlsState) : Bool := s.tlsOn && mx.cert == .valid
@@ -96,20 +135,81 @@ theorem connect_err (mx : MX) (e : Cls) (h : connect mx = .error e) : e = .temp 
   cases hup : mx.up <;> cases hst : mx.starttls <;> cases hc : mx.cert <;>
     simp [hup, hst, hc, handshake, plain] at h <;> exact h.symm
 
-/-- the code's discovery agrees with the RFC reading -/
-theorem discover_spec (mx : MX) :
-    (discover mx = .fail ↔ discovery mx = .failed) ∧
-    (discover mx = .none ↔ discovery mx = .nothing) ∧
-    (∀ t, discover mx = .recs t → t = mx.tlsa ∧
-      (t = .unusable → discovery mx = .unusableOnly) ∧ (t ≠ .unusable → discovery mx = .usable)) := by
-  unfold discover discovery
-  cases h1 : mx.aAD <;> cases h2 : mx.tlsa <;> cases h3 : mx.tlsaAD <;> simp
+theorem lookupInitial_spec (t : Tlsa) (ad : Bool) :
+    (lookupInitial t ad = .fail ↔ atBase t ad = .lookupFailed) ∧
+    (lookupInitial t ad = .none ↔ atBase t ad = .notApplicable) ∧
+    (∀ k, lookupInitial t ad = .recs k ↔ atBase t ad = .rrset k) := by
+  unfold lookupInitial atBase
+  cases t <;> cases ad <;> simp <;> (intro k; constructor <;> (intro h; exact h.symm))
 
-theorem verifyDANE_spec (mx : MX) (tlsOn : Bool) :
-    (verifyDANE mx.tlsa mx.cert tlsOn = .auth → tlsOn = true ∧ daneMatches mx = true ∧ mx.tlsa ≠ .unusable) ∧
-    (verifyDANE mx.tlsa mx.cert tlsOn = .noReq → tlsOn = true ∧ mx.tlsa = .unusable) := by
-  unfold verifyDANE daneMatches
-  cases tlsOn <;> cases h2 : mx.tlsa <;> cases h3 : mx.cert <;> simp
+/-- The code's discovery against the RFC reading: it fails whenever the RFC says the discovery failed
+(it also fails for a lookup error at the canonical name of an "insecure CNAME", a name the RFC would not
+consult — stricter, never weaker), "no records" only when DANE does not apply, and the records it
+returns are the governing ones. -/
+theorem discover_spec (mx : MX) :
+    (discovery mx = .failed → discover mx = .fail) ∧
+    (discover mx = .none → discovery mx = .nothing) ∧
+    (∀ t, discover mx = .recs t → governing mx = .rrset t) := by
+  unfold discovery discover governing
+  cases hc : mx.cname
+  · -- not an alias
+    cases h1 : mx.aAD
+    · simp
+    · have := lookupInitial_spec mx.tlsa mx.tlsaAD
+      simp only [Bool.not_true, Bool.false_eq_true, ↓reduceIte]
+      refine ⟨?_, ?_, ?_⟩
+      · intro h
+        apply this.1.2
+        cases hg : atBase mx.tlsa mx.tlsaAD <;> simp [hg] at h ⊢
+        split at h <;> simp at h
+      · intro h; simp [this.2.1.1 h]
+      · intro t h; exact (this.2.2 t).1 h
+  · -- secure alias
+    have hI := lookupInitial_spec mx.tlsaI mx.tlsaIAD
+    generalize lookupInitial mx.tlsaI mx.tlsaIAD = lI at hI ⊢
+    generalize atBase mx.tlsaI mx.tlsaIAD = gI at hI ⊢
+    obtain ⟨i1, i2, i3⟩ := hI
+    cases h1 : mx.aAD <;> cases h4 : mx.cnameErr <;> cases h2 : mx.tlsa <;> cases h3 : mx.tlsaAD <;>
+      simp [canonTlsaAD, atBase] <;>
+      (cases lI <;> cases gI <;> simp_all <;>
+        (try (have := (i3 _).1 rfl; subst this)) <;> (try split) <;> simp_all)
+  · -- insecure alias
+    cases h4 : mx.cnameErr <;> simp
+
+theorem governing_usable (mx : MX) (t : Tlsa) (h : governing mx = .rrset t) :
+    (t = .unusable → discovery mx = .unusableOnly) ∧ (t ≠ .unusable → discovery mx = .usable) ∧
+    daneMatches mx = kindMatches t mx.cert := by
+  unfold discovery daneMatches
+  rw [h]
+  refine ⟨fun h => by simp [h], fun h => by simp [h], rfl⟩
+
+/-- **A lookup failure at any name consulted is a discovery failure** (made explicit for an MX whose
+name is a fully secure alias): the discovery has failed iff the TLSA lookup at the canonical name fails, or
+no authenticated records are found there and the lookup at the initial name fails.  Together with
+`C05_tlsa_failure_defers` / `C05_data_only_on_satisfying_conn`: no content goes to such an MX. -/
+theorem C05_discovery_failed_secure_alias (mx : MX) (hc : mx.cname = .secure) (ha : mx.aAD = true) :
+    discovery mx = .failed ↔
+      (mx.tlsa = .servfail ∨
+        ((mx.tlsa = .none ∨ mx.tlsaAD = false) ∧ mx.tlsaI = .servfail)) := by
+  unfold discovery governing
+  simp only [hc, ha, ↓reduceIte]
+  cases h2 : mx.tlsa <;> cases h3 : mx.tlsaAD <;> cases h5 : mx.tlsaI <;> cases h6 : mx.tlsaIAD <;>
+    simp [atBase, canonTlsaAD, ha, h3]
+
+/-- records found (authenticated) at the canonical name of a fully secure alias govern: what is published at
+the initial name is not consulted -/
+theorem C05_canonical_records_govern (mx : MX) (hc : mx.cname = .secure) (ha : mx.aAD = true)
+    (had : mx.tlsaAD = true) (h1 : mx.tlsa ≠ .none) (h2 : mx.tlsa ≠ .servfail) :
+    governing mx = .rrset mx.tlsa := by
+  unfold governing
+  simp only [hc, ha, ↓reduceIte]
+  cases h : mx.tlsa <;> simp_all [atBase, canonTlsaAD]
+
+theorem verifyDANE_spec (t : Tlsa) (cert : Cert) (tlsOn : Bool) :
+    (verifyDANE t cert tlsOn = .auth → tlsOn = true ∧ kindMatches t cert = true ∧ t ≠ .unusable) ∧
+    (verifyDANE t cert tlsOn = .noReq → tlsOn = true ∧ t = .unusable) := by
+  unfold verifyDANE kindMatches
+  cases tlsOn <;> cases t <;> cases cert <;> simp
 
 /-! ## the two policy loops of `attemptMX` -/
 
@@ -243,18 +343,17 @@ theorem checkConn_le (F : List Policy) (p : Policy) (hp : p ∈ F) (tl : Nat) (d
     | none => simp [hd] at h; omega
     | recs t =>
       simp only [hd] at h
-      have hsp := (discover_spec mx).2.2 t hd
-      obtain ⟨ht, _, hus⟩ := hsp
-      subst ht
-      cases hv : verifyDANE mx.tlsa mx.cert s.tlsOn with
+      have hg := (discover_spec mx).2.2 t hd
+      obtain ⟨_, hus, hdm⟩ := governing_usable mx t hg
+      cases hv : verifyDANE t mx.cert s.tlsOn with
       | err => simp [hv] at h
       | noReq => simp [hv] at h; omega
       | auth =>
         simp [hv] at h
         subst h
-        obtain ⟨h1, h2, h3⟩ := (verifyDANE_spec mx s.tlsOn).1 hv
+        obtain ⟨h1, h2, h3⟩ := (verifyDANE_spec t mx.cert s.tlsOn).1 hv
         unfold tlsAuthOf
-        simp [h1, hp, hus h3, h2]
+        simp [h1, hp, hus h3, hdm, h2]
   | dnssec => simp [checkConn] at h; omega
   | localP t x =>
     simp only [checkConn] at h
@@ -312,22 +411,21 @@ theorem checkConns_sound (F : List Policy) (d : Domain) (mx : MX) (s : TlsState)
           cases hd : discover mx with
           | fail => simp [hd] at hc
           | none =>
-            have hn := hsp.2.1.1 hd
+            have hn := hsp.2.1 hd
             simp [hn]
           | recs t =>
             simp only [hd] at hc
-            obtain ⟨ht, hu1, hu2⟩ := hsp.2.2 t hd
-            subst ht
-            cases hv : verifyDANE mx.tlsa mx.cert s.tlsOn with
+            obtain ⟨hu1, hu2, hdm⟩ := governing_usable mx t (hsp.2.2 t hd)
+            cases hv : verifyDANE t mx.cert s.tlsOn with
             | err => simp [hv] at hc
             | noReq =>
-              obtain ⟨h1, h2⟩ := (verifyDANE_spec mx s.tlsOn).2 hv
+              obtain ⟨h1, h2⟩ := (verifyDANE_spec t mx.cert s.tlsOn).2 hv
               have := hu1 h2
               simp [this, h1]
             | auth =>
-              obtain ⟨h1, h2, h3⟩ := (verifyDANE_spec mx s.tlsOn).1 hv
+              obtain ⟨h1, h2, h3⟩ := (verifyDANE_spec t mx.cert s.tlsOn).1 hv
               have := hu2 h3
-              simp [this, h1, h2]
+              simp [this, h1, hdm, h2]
         · exact e hmem
       · intro t x hmem
         simp at hmem
@@ -360,7 +458,7 @@ theorem checkConn_err_discfail (d : Domain) (mx : MX) (s : TlsState) (hdf : disc
 /-- with DANE in the list and a failed discovery the second loop ends in a temporary error -/
 theorem checkConns_discfail (d : Domain) (mx : MX) (s : TlsState) (hf : discovery mx = .failed) :
     ∀ (l : List Policy) (tl : Nat), Policy.dane ∈ l → checkConns l tl d mx s = .error .temp := by
-  have hdf : discover mx = .fail := (discover_spec mx).1.2 hf
+  have hdf : discover mx = .fail := (discover_spec mx).1 hf
   intro l
   induction l with
   | nil => intro tl h; simp at h
@@ -1055,15 +1153,15 @@ theorem C05_recorded_levels_sound (F : List Policy) (ov : Bool) (d : Domain) (c 
 
 namespace Demo
 
-def goodMX : MX := ⟨1, true, .offered, .valid, true, true, true, .eeMatch, true⟩
+def goodMX : MX := ⟨1, true, .offered, .valid, true, true, true, .eeMatch, true, .none, .none, false, false⟩
 /-- plaintext-only MX that the MTA-STS policy does not list -/
-def weakMX : MX := ⟨1, true, .stripped, .valid, false, false, false, .none, false⟩
+def weakMX : MX := ⟨1, true, .stripped, .valid, false, false, false, .none, false, .none, .none, false, false⟩
 /-- MX whose TLSA lookup fails -/
-def failMX : MX := ⟨1, true, .offered, .valid, true, true, true, .servfail, false⟩
+def failMX : MX := ⟨1, true, .offered, .valid, true, true, true, .servfail, false, .none, .none, false, false⟩
 /-- a working MX that the MTA-STS policy does not list -/
-def unlistedMX : MX := ⟨2, true, .offered, .valid, false, true, true, .none, false⟩
+def unlistedMX : MX := ⟨2, true, .offered, .valid, false, true, true, .none, false, .none, .none, false, false⟩
 /-- self-signed MX authenticated by a DANE-EE record -/
-def daneMX : MX := ⟨1, true, .offered, .untrusted, true, true, true, .eeMatch, false⟩
+def daneMX : MX := ⟨1, true, .offered, .untrusted, true, true, true, .eeMatch, false, .none, .none, false, false⟩
 
 def strict : Cfg := ⟨[.mtasts, .dane, .dnssec, .localP 2 1], true, true, 10⟩
 
@@ -1119,6 +1217,43 @@ and the connection it had opened is still pooled for the next message -/
 example : (run strict (fun _ => dGood) [quarMsg, plainMsg] emptyPool).map
     (fun o => (o.rcpts.map (·.2), o.data.map (fun u => u.conn.transactions))) =
     [([.err .perm], []), ([.ok], [1])] := by decide
+
+/-- MX whose name is a DNSSEC-signed alias: the TLSA lookup at the canonical name fails, nothing is published
+at the initial name (NXDOMAIN) -/
+def aliasFailMX : MX := ⟨1, true, .offered, .valid, true, true, true, .servfail, false, .secure, .none, true, false⟩
+/-- signed alias, self-signed certificate: DANE-EE records at the canonical name match, the RRset at the initial
+name does not -/
+def aliasCanonMX : MX := ⟨1, true, .offered, .untrusted, true, true, true, .eeMatch, false, .secure, .mismatch, true, false⟩
+/-- the other way round: the canonical records do not match, the ones at the initial name would -/
+def aliasWrongMX : MX := ⟨1, true, .offered, .untrusted, true, true, true, .mismatch, false, .secure, .eeMatch, true, false⟩
+/-- nothing authenticated at the canonical name, lookup failure at the initial name -/
+def aliasInitFailMX : MX := ⟨1, true, .offered, .valid, true, true, false, .eeMatch, false, .secure, .servfail, true, false⟩
+/-- "insecure CNAME": signed alias into an unsigned zone, records at the initial name -/
+def aliasInsecureTargetMX : MX := ⟨1, true, .offered, .untrusted, true, false, false, .none, false, .secure, .eeMatch, true, false⟩
+
+def daneOnly : Cfg := ⟨[.dane, .localP 2 0], false, false, 10⟩
+
+/-- the hypotheses of `C05_tlsa_failure_defers` for the aliased MX with a failing lookup at the canonical name … -/
+example : discovery aliasFailMX = .failed ∧ discovery aliasInitFailMX = .failed := by decide
+
+/-- … and the model defers in both worlds -/
+example : (run daneOnly (fun _ => ⟨false, .absent, aliasFailMX, []⟩) [plainMsg] emptyPool).map
+    (fun o => (o.rcpts.map (·.2), o.data.length)) = [([.err .temp], 0)] := by decide
+example : (run daneOnly (fun _ => ⟨false, .absent, aliasInitFailMX, []⟩) [plainMsg] emptyPool).map
+    (fun o => (o.rcpts.map (·.2), o.data.length)) = [([.err .temp], 0)] := by decide
+
+/-- records at the canonical name authenticate the self-signed MX (the mismatching RRset at the initial name is not consulted) -/
+example : (run daneOnly (fun _ => ⟨false, .absent, aliasCanonMX, []⟩) [plainMsg] emptyPool).map
+    (fun o => (o.rcpts.map (·.2), o.data.map (fun u => u.conn.tlsLevel))) = [([.ok], [2])] := by decide
+
+/-- mismatching records at the canonical name refuse the MX although the initial name publishes matching ones -/
+example : (run daneOnly (fun _ => ⟨false, .absent, aliasWrongMX, []⟩) [plainMsg] emptyPool).map
+    (fun o => (o.rcpts.map (·.2), o.data.length)) = [([.err .perm], 0)] := by decide
+
+/-- signed alias into an unsigned zone: the records at the initial name authenticate the MX -/
+example : governing aliasInsecureTargetMX = .rrset .eeMatch ∧
+    (run daneOnly (fun _ => ⟨false, .absent, aliasInsecureTargetMX, []⟩) [plainMsg] emptyPool).map
+    (fun o => (o.rcpts.map (·.2), o.data.map (fun u => u.conn.tlsLevel))) = [([.ok], [2])] := by decide
 
 end Demo
 
